@@ -20,6 +20,7 @@ SPECS = {
         ],
     },
     "C02": {
+        "level": "translation_validation",
         "corr": ["RGA", "ERHT"],
         "engines": [
             {"name": "hist", "tag": "c02", "extra": "prop=C02", "n": {"quick": 500, "thorough": 8000}},
@@ -106,6 +107,16 @@ SPECS = {
             "remote change ids are well formed (every vector entry <= the id's lamport), which is itself an invariant every replica maintains (step_wf)",
             "actor ids are compared through their rank in byte order",
         ],
+    },
+    "C19": {
+        "level": "exploration", "exhaustive": True,
+        "corr": ["ERHT"],
+        "engines": [
+            {"name": "tree", "n": {"quick": 1, "thorough": 1}},
+            {"name": "erht", "n": {"quick": 400, "thorough": 4000}, "seed_off": 19},
+        ],
+        "explanation": "The five pairwise matrices (1592 pairs) transcribed from test/complex/tree_concurrency_test.go are run exhaustively on real Documents in 2 actor orders x 2 delivery orders, each with a snapshot-fed third replica and clone==root on every replica (6368 executions; a divergent pair is a failure, not a skip). Coq: the attribute tables written by Style/RemoveStyle are proved convergent (LWW registers commute); the RHT model is compared with crdt.RHT on random call sequences.",
+        "assumptions": ["PARTIAL: crdt/tree.go has no Coq model; the matrix verdict is exhaustive execution of the finite matrix on the implementation"],
     },
     "C20": {
         "engines": [
